@@ -1,13 +1,14 @@
 package vh
 
 import (
-	"sync"
 	"bufio"
 	"context"
 	"encoding/json"
 	"flag"
 	"fmt"
+	"github.com/henrylee2cn/erpc/v6/socket"
 	"os"
+	"sync"
 	"sync/atomic"
 	"time"
 
@@ -182,6 +183,12 @@ func runDisp(rec *Rec, sc *DispScenario, n int) {
 	if c.Res == "ageshort" {
 		// the serving session's handling contexts live 15 ms (peer configuration), the handler takes 45 ms
 		delay = 45 * time.Millisecond
+	}
+	if c.Res == "smalllimit" {
+		// the process accepts messages of at most 32 KiB, the handler's result is 64 KiB
+		socket.SetMessageSizeLimit(32 << 10)
+		defer socket.SetMessageSizeLimit(0)
+		app.SetBehav(tag, &Behav{ResPad: 64 << 10})
 	}
 	switch c.Hout {
 	case "status":
